@@ -9,6 +9,15 @@ from .c13_units import PREAMBLE
 
 DUMP_PREAMBLE = PREAMBLE + HARNESS
 
+# file-scope helpers for the constant-expression probes: compound assignment inside a C++14 constexpr function
+PROBE_PREAMBLE = PREAMBLE + r'''
+namespace c13p {
+#define C13P_ASG(N, OP) struct N { template <class A, class B> static constexpr void f(A &a, const B &b) { a OP b; } };
+C13P_ASG(addeq, +=) C13P_ASG(subeq, -=) C13P_ASG(muleq, *=) C13P_ASG(diveq, /=)
+template <class F, class X, class B> constexpr X apply(X x, B b) { F::f(x, b); return x; }
+}
+'''
+
 # (name, class, Au expression, raw expression, integral-only, takes-scalar)
 #   {a},{b}: quantities; {la}: quantity lvalue; {ra},{rb}: raw R; {lra}: raw lvalue; {s}: scalar S
 _OPS = [
@@ -31,11 +40,37 @@ _OPS = [
     ("muleq", "asg", "{la} *= {s}", "{lra} *= {s}", False, True),
     ("diveq", "asg", "{la} /= {s}", "{lra} /= {s}", False, True),
 ]
+# Same-unit QuantityPoint operators that exist ({p},{q}: points; {lp}: point lvalue; {d}: Quantity of the same
+# unit and rep).  The statement's operator sentence has no QuantityPoint subject (no % unary * / for points):
+# these are judged on VALUE only, where the raw result is defined and representable in R.
+_POPS = [
+    ("pt_eq", "pcmp", "{p} == {q}", "{ra} == {rb}"),
+    ("pt_ne", "pcmp", "{p} != {q}", "{ra} != {rb}"),
+    ("pt_lt", "pcmp", "{p} < {q}", "{ra} < {rb}"),
+    ("pt_le", "pcmp", "{p} <= {q}", "{ra} <= {rb}"),
+    ("pt_gt", "pcmp", "{p} > {q}", "{ra} > {rb}"),
+    ("pt_ge", "pcmp", "{p} >= {q}", "{ra} >= {rb}"),
+    ("pt_sub", "pdiff", "{p} - {q}", "{ra} - {rb}"),
+    ("pt_add_pd", "parith", "{p} + {d}", "{ra} + {rb}"),
+    ("pt_add_dp", "parith", "{d} + {p}", "{rb} + {ra}"),
+    ("pt_sub_pd", "parith", "{p} - {d}", "{ra} - {rb}"),
+    ("pt_addeq", "pasg", "{lp} += {d}", "{lra} += {rb}"),
+    ("pt_subeq", "pasg", "{lp} -= {d}", "{lra} -= {rb}"),
+]
 SCALARS = ["R", "int32_t", "double"]
+# scalar operators with a scalar type wider than / of other signedness than / of another kind than the rep: swept by
+# value in both tiers (added after seeded change C13b; extended in round 3: 64-bit reps, long double, a signed scalar
+# on an unsigned rep, a floating scalar on an integral rep)
+WIDER = {"int8_t": ["int32_t"], "uint8_t": ["int32_t"], "int16_t": ["int32_t", "uint32_t"], "uint16_t": ["int32_t"],
+         "int32_t": ["int64_t", "uint32_t", "double"], "uint32_t": ["int64_t", "int32_t"],
+         "int64_t": ["uint64_t", "int32_t"], "uint64_t": ["int64_t"],
+         "float": ["double"], "double": ["long double"], "long double": ["double"]}
 _DECL = {"a": "std::declval<Q>()", "b": "std::declval<Q>()", "la": "std::declval<Q&>()",
          "ra": "std::declval<R>()", "rb": "std::declval<R>()", "lra": "std::declval<R&>()",
-         "s": "std::declval<S>()"}
-_EVAL = {"a": "a", "b": "b", "la": "a", "ra": "ra", "rb": "rb", "lra": "ra", "s": "s"}
+         "s": "std::declval<S>()", "p": "std::declval<P>()", "q": "std::declval<P>()", "d": "std::declval<Q>()",
+         "lp": "std::declval<P&>()"}
+_EVAL = {"a": "a", "b": "b", "la": "a", "ra": "ra", "rb": "rb", "lra": "ra", "s": "s", "p": "p", "q": "q", "d": "b", "lp": "p"}
+_FLOATING = ("float", "double", "long double")
 
 
 class Op:
@@ -43,6 +78,19 @@ class Op:
 
     def __init__(self, oid, name, cls, au, raw, S):
         self.oid, self.name, self.cls, self.au, self.raw, self.S = oid, name, cls, au, raw, S
+
+    @property
+    def point(self):
+        return self.cls[0] == "p" or self.cls == "rtp"
+
+
+RT_OP = Op("roundtrip", "roundtrip", "rt", "{a}.in(unit)", "x", "R")
+RTP_OP = Op("roundtrip_pt", "roundtrip_pt", "rtp", "{p}.in(unit)", "x", "R")
+
+
+def _scalar_ok(cls, rep, s):
+    # documented: compound mult/div of an integral rep by a floating scalar is not supported
+    return not (cls == "asg" and s in _FLOATING and rep not in F3)
 
 
 def ops_for(rep):
@@ -55,42 +103,119 @@ def ops_for(rep):
             out.append(Op(name, name, cls, au, raw, "R"))
             continue
         for s in SCALARS:
-            if s == rep:
-                continue
-            # documented: compound mult/div of an integral rep by a floating scalar is not supported
-            if cls == "asg" and s == "double" and rep not in F3:
+            if s == rep or not _scalar_ok(cls, rep, s):
                 continue
             out.append(Op("%s.%s" % (name, s), name, cls, au, raw, s))
     return out
 
 
-def type_record(rid, u, rep):
+def wider_ops(rep):
+    """The scalar operators of `rep` with the scalar types of WIDER[rep]."""
+    out = []
+    for name, cls, au, raw, _, scalar in _OPS:
+        if scalar:
+            out += [Op("%s.%s" % (name, s), name, cls, au, raw, s) for s in WIDER.get(rep, []) if _scalar_ok(cls, rep, s)]
+    return out
+
+
+def pt_ops(rep):
+    return [Op(name, name, cls, au, raw, "R") for name, cls, au, raw in _POPS]
+
+
+def sweep_ops(rep, tier):
+    """Quantity operators that are acceptance-probed (and, when accepted, swept by value where a sweep exists:
+    scalar type R and the WIDER scalar types)."""
+    out = [o for o in ops_for(rep) if tier == "thorough" or o.S == "R"]
+    seen = set(o.oid for o in out)
+    return out + [o for o in wider_ops(rep) if o.oid not in seen]
+
+
+def swept(rep, op):
+    """Has this accepted operator a value sweep?"""
+    return op.cls in ("rt", "rtp") or op.point or op.S == "R" or op.S in WIDER.get(rep, [])
+
+
+def find_op(rep, oid):
+    for o in ops_for(rep) + wider_ops(rep) + pt_ops(rep) + [RT_OP, RTP_OP]:
+        if o.oid == oid:
+            return o
+    raise KeyError(oid)
+
+
+def type_record(rid, u, rep, pt_accepted=()):
+    """pt_accepted: the point operators (Op) that compile for this unit/rep/configuration."""
     st = ["using U = %s; using R = %s; using Q = au::Quantity<U, R>; using P = au::QuantityPoint<U, R>;" % (u.cpp, rep),
           '{ const R r0{}; Q q{}; P p{}; constexpr Q cq{}; constexpr P cp{}; constexpr R cqv = cq.in(U{}); constexpr R cpv = cp.in(U{}); '
           'vf_b("def_in", c13::bits_eq(q.in(U{}), r0) && c13::bits_eq(p.in(U{}), r0) && c13::bits_eq(cqv, r0) && c13::bits_eq(cpv, r0) '
           '&& c13::bits_eq(q.in(%s), r0) && c13::bits_eq(p.in(%s), r0)); }' % (u.maker, u.ptmaker)]
-    for op in ops_for(rep):
+    for op in ops_for(rep) + list(pt_accepted):
         au, raw = op.au.format(**_DECL), op.raw.format(**_DECL)
         k = op.oid
-        if op.cls == "cmp":
+        if op.cls in ("cmp", "pcmp"):
             tau, traw = "decltype(%s)" % au, "decltype(%s)" % raw
-            ref = "true"
+            ref = un = "true"
         else:
             tau = "decltype((%s).in(U{}))" % au
             traw = "std::remove_reference_t<decltype(%s)>" % raw
             ref = ("std::is_lvalue_reference<decltype(%s)>::value == std::is_lvalue_reference<decltype(%s)>::value"
                    % (au, raw))
-        st.append('{ using S = %s; vf_b("%s|ti", std::is_same<%s, %s>::value); vf_b("%s|rf", %s); '
+            # the unit of the result: a Quantity (point: QuantityPoint) of exactly U, the object itself for compound ops
+            want = {"arith": "au::Quantity<U, %s>" % traw, "asg": "Q&", "pdiff": "au::Quantity<U, %s>" % tau,
+                    "parith": "au::QuantityPoint<U, %s>" % tau, "pasg": "P&"}[op.cls]
+            un = "std::is_same<decltype(%s), %s>::value" % (au, want)
+        st.append('{ using S = %s; vf_b("%s|ti", std::is_same<%s, %s>::value); vf_b("%s|rf", %s); vf_b("%s|un", %s); '
                   'vf_s("%s|au", c13::TN<%s>::n()); vf_s("%s|raw", c13::TN<%s>::n()); }'
-                  % (op.S, k, tau, traw, k, ref, k, tau, k, traw))
+                  % (op.S, k, tau, traw, k, ref, k, un, k, tau, k, traw))
     return (rid, st)
 
 
-def probe_code(u, rep, op):
-    au = op.au.format(**_EVAL)
-    return ("using R = %s; using S = %s; auto mk = %s; R ra = static_cast<R>(5), rb = static_cast<R>(3); "
-            "S s = static_cast<S>(2); auto a = mk(ra); auto b = mk(rb); (void)rb; (void)s; (void)b; "
-            "auto &&r = (%s); (void)r; (void)a;" % (rep, op.S, u.maker, au))
+def probe_code(u, rep, op, constant=False):
+    """Body of one acceptance probe.  constant=False: the operator on const operands (the assigned-to object
+    excepted) at run time; constant=True: the same use inside a constant expression, its compile-time value
+    compared with the raw operator's (compound assignment through a constexpr helper function: C++14)."""
+    kw = "constexpr" if constant else "const"
+    head = ("using R = %s; using S = %s; using U = %s; %s auto mk = %s; %s auto pm = %s; (void)mk; (void)pm; "
+            % (rep, op.S, u.cpp, kw, u.maker, kw, u.ptmaker))
+    if op.cls in ("rt", "rtp"):
+        head += "%s R x = static_cast<R>(5); " % kw
+        if op.cls == "rtp":
+            if constant:
+                return head + 'constexpr auto p = pm(x); static_assert(p.in(pm) == x && pm(x).in(pm) == x, "");'
+            return head + "const auto p = pm(x); const R y = p.in(pm); const R z = pm(x).in(pm); (void)y; (void)z;"
+        sym = u.symbol
+        if constant:   # data_in is not declared constexpr by the library: run-time form only
+            return head + ("constexpr auto q = mk(x); static_assert(q.in(mk) == x && q.in(U{}) == x && q.template in<R>(mk) == x "
+                           '&& mk(x).in(mk) == x && au::make_quantity<U>(x).in(mk) == x%s, "");'
+                           % ((" && (x * %s).in(%s) == x && q.in(%s) == x" % (sym, sym, sym)) if sym else ""))
+        return head + ("const auto q = mk(x); const R y = q.in(mk); const R z = q.in(U{}); const R w = q.template in<R>(mk); "
+                       "const R &d = q.data_in(mk); const R e = mk(x).data_in(mk); const R v = au::make_quantity<U>(x).in(mk); "
+                       "(void)y; (void)z; (void)w; (void)d; (void)e; (void)v;%s"
+                       % ((" const auto qs = x * %s; const R t = qs.in(%s); const R t2 = q.in(%s); (void)t; (void)t2;"
+                           % (sym, sym, sym)) if sym else ""))
+    au, raw = op.au.format(**_EVAL), op.raw.format(**_EVAL)
+    mut = op.cls in ("asg", "pasg")
+    head += "%s R ra = static_cast<R>(5), rb = static_cast<R>(3); %s S s = static_cast<S>(2); (void)rb; (void)s; " % (kw, kw)
+    if not constant:
+        # the result is read exactly as the value sweeps read it (for a unitless unit `-a` on a const operand could
+        # otherwise compile through the implicit conversion to R and yield a raw number)
+        read = {"arith": "const auto v = r.in(mk);", "cmp": "const bool v = r;", "asg": "const auto v = a.in(mk);",
+                "pcmp": "const bool v = r;", "pdiff": "const auto v = r.in(mk);", "parith": "const auto v = r.in(pm);",
+                "pasg": "const auto v = p.in(pm);"}[op.cls]
+        if op.point:
+            return head + ("%s p = pm(ra); const auto q = pm(rb); const auto b = mk(rb); (void)q; (void)b; auto &&r = (%s); (void)r; (void)p; %s (void)v;"
+                           % ("auto" if mut else "const auto", au, read))
+        return head + ("%s a = mk(ra); const auto b = mk(rb); (void)b; auto &&r = (%s); (void)r; (void)a; %s (void)v;"
+                       % ("auto" if mut else "const auto", au, read))
+    head += "constexpr auto a = mk(ra); constexpr auto b = mk(rb); (void)a; (void)b; "
+    if op.point:
+        head += "constexpr auto p = pm(ra); constexpr auto q = pm(rb); (void)p; (void)q; "
+    if mut:
+        fn = "c13p::apply<c13p::%s>" % op.name.replace("pt_", "")
+        lhs, rd = ("p", "pm") if op.point else ("a", "mk")
+        arg, rarg = ("s", "s") if op.S != "R" or op.name in ("muleq", "diveq") else ("b", "rb")
+        return head + 'static_assert(%s(%s, %s).in(%s) == %s(ra, %s), "");' % (fn, lhs, arg, rd, fn, rarg)
+    val = {"arith": "r.in(mk)", "cmp": "r", "pcmp": "r", "pdiff": "r.in(mk)", "parith": "r.in(pm)"}[op.cls]
+    return head + 'constexpr auto r = (%s); static_assert(%s == (%s), "");' % (au, val, raw)
 
 
 def layout_record(rid, u, rep):
@@ -120,33 +245,43 @@ LAYOUT_TRUE = ["q_tcopy", "q_tdtor", "q_stdlayout", "q_def_value", "q_def_defaul
 
 
 # ------------------------------------------------------------------------------------------------ sweeps
-def sweep_tu(path, u, accepted, rt_reps):
-    """accepted: list of (rep, opname) to sweep (S == R only); rt_reps: reps for the round trip."""
+def sym_arg(u):
+    return u.symbol or "c13::NoSym{}"
+
+
+def sweep_tu(path, u, accepted):
+    """accepted: [(rep, Op)] — exactly the operator uses (and round trips) that were acceptance-probed and accepted
+    for this unit under this configuration; nothing else is instantiated."""
     out = [DUMP_PREAMBLE, "int main(int argc, char **argv) {",
            "  const int part = argc > 1 ? std::atoi(argv[1]) : 0, nparts = argc > 2 ? std::atoi(argv[2]) : 1; int k = 0;"]
-    for rep, opname in accepted:
-        out.append('  if (k++ %% nparts == part) c13::sweep<c13::%s, %s>("%s", %s);' % (opname, rep, u.name, u.maker))
-    # scalar operators with a scalar type wider than / different from the rep (added after seeded change C13b)
-    wider = {"int8_t": ["int32_t"], "uint8_t": ["int32_t"], "int16_t": ["int32_t", "uint32_t"], "uint16_t": ["int32_t"],
-             "int32_t": ["int64_t", "uint32_t"], "uint32_t": ["int64_t"], "float": ["double"], "double": ["long double"]}
-    for rep, opname in accepted:
-        if opname in ("mul_qs", "mul_sq", "div_qs", "muleq", "diveq"):
-            for sc in wider.get(rep, []):
-                if opname in ("muleq", "diveq") and sc in ("double", "long double") and rep not in ("float", "double"):
-                    continue
-                out.append('  if (k++ %% nparts == part) c13::sweep_scalar<c13::%s, %s, %s>("%s", %s, "%s");' % (opname, rep, sc, u.name, u.maker, sc))
-    for rep in rt_reps:
-        out.append('  if (k++ %% nparts == part) c13::roundtrip<%s>("%s", %s);' % (rep, u.name, u.maker))
+    n = 0
+    for rep, op in accepted:
+        if not swept(rep, op):
+            continue
+        n += 1
+        pre = "  if (k++ % nparts == part) "
+        if op.cls == "rt":
+            out.append(pre + 'c13::roundtrip<%s>("%s", %s, %s);' % (rep, u.name, u.maker, sym_arg(u)))
+        elif op.cls == "rtp":
+            out.append(pre + 'c13::roundtrip_pt<%s>("%s", %s);' % (rep, u.name, u.ptmaker))
+        elif op.point:
+            out.append(pre + 'c13::sweep_pt<c13::%s, %s>("%s", %s);' % (op.name, rep, u.name, u.maker))
+        elif op.S == "R":
+            out.append(pre + 'c13::sweep<c13::%s, %s>("%s", %s);' % (op.name, rep, u.name, u.maker))
+        else:
+            out.append(pre + 'c13::sweep_scalar<c13::%s, %s, %s>("%s", %s, "%s");' % (op.name, rep, op.S, u.name, u.maker, op.S))
     out.append("  return 0; }")
     with open(path, "w") as f:
         f.write("\n".join(out) + "\n")
+    return n
 
 
 def f32_tu(path, units):
     out = [DUMP_PREAMBLE, "int main(int argc, char **argv) {",
            "  const unsigned long long lo = std::strtoull(argv[1], 0, 10), hi = std::strtoull(argv[2], 0, 10);"]
     for u in units:
-        out.append('  c13::roundtrip_f32("%s", %s, lo, hi);' % (u.name, u.maker))
+        out.append('  c13::roundtrip_f32("%s", %s, %s, lo, hi);' % (u.name, u.maker, sym_arg(u)))
+        out.append('  c13::roundtrip_pt_f32("%s", %s, lo, hi);' % (u.name, u.ptmaker))
     out.append("  return 0; }")
     with open(path, "w") as f:
         f.write("\n".join(out) + "\n")
@@ -166,7 +301,10 @@ def lit(rep, s):
     """C++ expression of type `rep` for a value string printed by the harness (decimal or 0x-bits)."""
     if s.startswith("0x"):
         return 'c13::from_hex<%s>("%s")' % (rep, s[2:])
-    v = int(s)
+    try:
+        v = int(s)
+    except ValueError:      # printed by the trap handler (%.21Lg)
+        return "static_cast<%s>(%sL)" % (rep, s if any(c in s for c in ".en") else s + ".0")
     if v == -2 ** 63:
         return "static_cast<%s>(-9223372036854775807LL - 1)" % rep
     return "static_cast<%s>(%d%s)" % (rep, v, "ULL" if v >= 2 ** 63 else "LL")
@@ -174,15 +312,29 @@ def lit(rep, s):
 
 def single_value_record(u, rep, opname, a, b):
     """One dump record re-running a single (unit, rep, op, a, b) case."""
-    A, B = lit(rep, a), lit(rep, b) if b else "%s{}" % rep
-    if opname == "roundtrip":
-        return (0, ["using R = %s; const R x = %s; const R y = %s(x).in(%s); const R z = %s(x).in(%s{});" % (
-            rep, A, u.maker, u.maker, u.maker, u.cpp),
-                    'vf_b("defined", true); vf_b("same", c13::bits_eq(x, y) && c13::bits_eq(x, z)); '
-                    'vf_s("got", c13::Str<R>::s(y)); vf_s("want", c13::Str<R>::s(x));'])
-    return (0, ["using R = %s; const R a = %s; const R b = %s; auto mk = %s; using Op = c13::%s;" % (rep, A, B, u.maker, opname),
-                'const bool ok = c13::Def<R, R>::ok(Op::kind, a, b); vf_b("defined", ok);',
+    name, _, sc = opname.partition("@")
+    S = sc or rep
+    A, B = lit(rep, a), lit(S, b) if b else "%s{}" % S
+    if name == "roundtrip":
+        return (0, ["using R = %s; const R x = %s; c13::RT<std::decay_t<decltype(%s)>, std::decay_t<decltype(%s)>, R> rt{\"\", %s, %s}; rt.quiet = true; rt.one(x);"
+                    % (rep, A, u.maker, sym_arg(u), u.maker, sym_arg(u)),
+                    'vf_b("defined", true); vf_b("same", rt.bad == 0); vf_s("got", rt.last); vf_s("want", c13::Str<R>::s(x));'])
+    if name == "roundtrip_pt":
+        return (0, ["using R = %s; const R x = %s; c13::RTP<std::decay_t<decltype(%s)>, R> rt{\"\", %s}; rt.quiet = true; rt.one(x);"
+                    % (rep, A, u.ptmaker, u.ptmaker),
+                    'vf_b("defined", true); vf_b("same", rt.bad == 0); vf_s("got", rt.last); vf_s("want", c13::Str<R>::s(x));'])
+    head = "using R = %s; using S = %s; const R a = %s; const S b = %s; auto mk = %s; using Op = c13::%s;" % (rep, S, A, B, u.maker, name)
+    if name.startswith("pt_"):
+        return (0, [head, 'const bool ok = c13::PtOk<R>::ok(Op::kind, a, b); vf_b("defined", ok);',
+                    "if (ok) { const auto want = Op::raw(a, b); const auto got = Op::au(mk, a, b); "
+                    'vf_b("same", c13::Num<std::decay_t<decltype(got)>, std::decay_t<decltype(want)>>::eq(got, want)); '
+                    'vf_s("got", c13::Str<std::decay_t<decltype(got)>>::h(got)); '
+                    'vf_s("want", c13::Str<std::decay_t<decltype(want)>>::h(want)); }'])
+    same = "c13::Same<std::decay_t<decltype(got)>, std::decay_t<decltype(want)>>::eq(got, want)"
+    if sc:      # the mixed-scalar-type sweeps also demand the raw operator's result type
+        same = "std::is_same<std::decay_t<decltype(got)>, std::decay_t<decltype(want)>>::value && " + same
+    return (0, [head, 'const bool ok = c13::DefS<R, S>::ok(Op::kind, a, b); vf_b("defined", ok);',
                 "if (ok) { const auto want = Op::raw(a, b); const auto got = Op::au(mk, a, b); "
-                'vf_b("same", c13::Same<std::decay_t<decltype(got)>, std::decay_t<decltype(want)>>::eq(got, want)); '
+                'vf_b("same", %s); '
                 'vf_s("got", c13::Str<std::decay_t<decltype(got)>>::h(got)); '
-                'vf_s("want", c13::Str<std::decay_t<decltype(want)>>::h(want)); }'])
+                'vf_s("want", c13::Str<std::decay_t<decltype(want)>>::h(want)); }' % same])
